@@ -299,9 +299,14 @@ def check(tier):
                     chk.harness_error("counterexample for %s did not reproduce" % lid)
     leaf_tables(chk)
     corpus(chk, tier)
+    # evolved metamodels, the clauses that are this plugin's alone: vector names follow the message classes whatever the
+    # method / typeName look like, every class gets a True vector (the other families are run by C06)
+    from props import evolve
+
+    evolve.run_tiny(chk, ["testdata"], tier, "C17", families=("msgnames", "params", "messages"))
     chk.ev.coverage["functions_encoded"] = [evidence.fn_ref(f) for f in (tg.generate_for_array, tg.generate_for_tuple, tg.generate_for_map, tg.generate_for_or, tg.generate_for_and, tg.generate_for_literal, tg.generate_for_reference, tg.generate_for_property, tg.get_all_properties, tg.generate_requests, tg.generate_notifications, tg.generate_responses, tg.generate_for_base, tg.request_variants, tg.response_variants, tg.notify_variants)]
     chk.ev.coverage["bounds"] = {"label kernels": "all assignments of symbolic labels to <= 4 components per combinator", "corpus": "all vectors emitted for the committed metamodel"}
-    chk.ev.coverage["outside_bounds"] = ["interplay of labels across union alternatives (a value generated for alternative i with label False that happens to be valid for alternative j) beyond what the exhaustive corpus comparison shows for the committed model", "evolved metamodels (C06)"]
+    chk.ev.coverage["outside_bounds"] = ["interplay of labels across union alternatives (a value generated for alternative i with label False that happens to be valid for alternative j) beyond what the exhaustive corpus comparison shows for the committed model", "evolved metamodels other than the message-naming / params / message families (C06 runs all families)"]
     chk.ev.coverage["stubs"] = ["generate_for_type replaced by a stub yielding opaque tokens with symbolic labels (the kernels' only callee)", "uuid4 constant"]
     chk.ev.assumptions += ["response envelopes carrying both result and error are read as declared by the plugin's own ResponseError structure", "a property-less literal / structure is read as an extension point (accepts extra members), as the plugin documents with reference to vscode-languageserver-node#997"]
     chk.ev.coverage["rule"] = "one lemma per combinator with the component labels symbolic; z3 query per emitted leaf / envelope variant; exhaustive comparison of the emitted corpus with an independent strict validator and the Python converter"
